@@ -233,7 +233,8 @@ static int g_omission;
  * class of their own: blocks omitted before their level-1 index was flushed leave no trace on disk. */
 static const char *cut_class(const image_t *im) {
     static const char *n[] = {"between-writes", "torn-append", "torn-header-update", "torn-inplace-payload"};
-    if (g_omission) return "omitted-blocks";
+    static const char *no[] = {"omitted-blocks/between-writes", "omitted-blocks/torn-append", "omitted-blocks/torn-header-update", "omitted-blocks/torn-inplace-payload"};
+    if (g_omission) return no[im->cls & 3];
     return n[im->cls & 3];
 }
 
